@@ -111,6 +111,16 @@ Pad ==
          [Ev("pad", x, [m |-> m, width |-> width, fill |-> <<fl>>, extend |-> ext, inplace |-> 0], <<r>>, 0)
             EXCEPT !.o = [pyout |-> "ok", py |-> [t |-> "s", v |-> g[1]]]], 0)
 
+\* replace(old, new) with a register as replacement (its own settings, reused for every match)
+Replace ==
+  \E x \in Live, y \in Live, c \in Alphabet, cnt \in {-1, 1} :
+    LET cx == ctab[x] cy == ctab[y] r == NextFree
+        g == CPReplace(cx.t, cx.f, <<c>>, "S", cy.t, cy.f, cnt)
+    IN Len(g[1]) <= MaxTotalLen /\
+       Do([ctab EXCEPT ![r] = [k |-> "S", t |-> g[1], f |-> g[2]]],
+          [Ev("replace", x, [old |-> <<c>>, new |-> y, count |-> cnt, m |-> "replace", inplace |-> 0], <<r>>, 0)
+             EXCEPT !.o = [pyout |-> "ok", py |-> [t |-> "s", v |-> g[1]]]], 4 * ninst + 8)
+
 \* to_str under the 8 flag combinations; the rendering is a stuttering step of the tables
 Render ==
   \E x \in Live, opt \in {0, 1}, rs \in {0, 1}, re \in {0, 1} :
@@ -123,7 +133,7 @@ Render ==
 
 Next ==
   /\ depth < MaxDepth
-  /\ \/ (Free # {} /\ (New \/ Slice \/ Copy \/ Add \/ Pad))
+  /\ \/ (Free # {} /\ (New \/ Slice \/ Copy \/ Add \/ Pad \/ Replace))
      \/ Apply \/ Remove \/ IAdd \/ Render
 
 Spec == Init /\ [][Next]_cvars
